@@ -37,6 +37,11 @@ CLAIMS = {
         text='Static: BlockPartitioner partition/merge are mutually inverse by construction (forward split vs reversed concat on the same axis, group size = slice width = stride, (d-1)//B split points); reshape in/out pairing in Preconditioner and the Tearfree reshaper (pad at end / slice from 0 of one _derive_shapes result, ceil padding); the three dispatchers on preconditioner type agree on all (type, rank<=1) states; per-block preconditioner slices [i*k,(i+1)*k) and block-major announcement; merge guard product*d <= max_dim; _deblockify(_blockify(x)) == x and block contiguity proved by an index-map algebra for every structural case (rank <= 3 quick, <= 4 thorough); the large-axis predicate dim >= block_size is uniform and init rejects what the block arithmetic cannot handle.',
         note='Trusted: numpy semantics of split/concatenate/reshape/transpose; blockify logic depends on which axes are large, not on the particular sizes. Undecided: BlockPartitioner element order on every concrete shape (numpy np.arange-based metadata not folded).',
         design='4/C06'),
+    'C07': dict(
+        technique='definite assignment; KIND abstract interpretation (pytree skeletons) with the initial state fed through the inlined update path per configuration valuation; cond-arm agreement; sibling cross-check of the sharded init/shape/pspec triple; assertion folding vs constructor validation; lints',
+        text='Static: package-wide definite assignment (251 functions); the pytree skeleton of the initial state of a preconditioned and a skipped parameter is pushed through _compute_stats -> _compute_preconditioners (pmap and pmap-quantized, root routines inlined) -> _transform_grad for every consistent valuation of 11 layout atoms (covering set quick, all ~900 thorough) and must come back unchanged, with both arms of every traced conditional on the way building the same tree; same for SM3 and Tearfree Shampoo/Sketchy; the sharded init / shape-dtype / partition-spec functions build one record, count statistics under the same guard, pad by (-N) mod D, take the maximal size over the same parameters and declare the dtypes init constructs; dispatch siblings agree; no axis-less squeeze; configuration-only assertions cannot fail for an accepted configuration; no dead store of a computed value. Necessary conditions of C07.',
+        note='Trusted: arrays are leaves (shapes/dtypes not tracked except in the sharded declaration); tree.map/all_gather preserve structure; _pjit_compute_preconditioners unreachable. Undecided: update dtype under mixed precision, shape-dependent assertions, arbitrary trace-time errors.',
+        design='4/C07'),
 }
 
 NOT_BUILT_REASON = 'checker for this property not built yet (build phase in progress; see DESIGN.md section 9)'
